@@ -14,7 +14,7 @@ import time
 from collections import Counter
 from pathlib import Path
 
-from . import common, drv, drv_sweep as sw, tables
+from . import common, drv, drv_findings as dfind, drv_hunt as dh, drv_sweep as sw, tables
 
 PID = "C09"
 BUDGET = 5   # "within the tool's own module pass budget (five applications)"; checked against Tables below
@@ -166,6 +166,22 @@ def check(run: common.Run):
             jid = len(jobs)
             jobs.append((jid, s, dict(sw.OPTION_COMBOS[i % 8], max_line_length=w), iters))
             meta[jid] = "orientation:" + tag
+    # round 4: first statements x undefined names (text inserted into a docstring grows on every application), alias
+    # chains (bounded work per application), and call histories: the whole sequence is run a second time in the same
+    # process (`repeat`), which must converge the same way (seed C09-c: a process-global content history)
+    for i, s in enumerate(dh.first_statement_family()):
+        if run.tier == "thorough" or i % 2 == 0:
+            jid = len(jobs)
+            jobs.append((jid, s, dict(sw.OPTION_COMBOS[i % 8]), iters))
+            meta[jid] = "first_statement"
+    for i, s in enumerate(dh.alias_chain_family()):
+        jid = len(jobs)
+        jobs.append((jid, s, dict(sw.OPTION_COMBOS[0], repeat=True), iters))
+        meta[jid] = "alias_chains"
+    for i, s in enumerate([x for x in fam["functions"] if sw.valid(x)][:: (12 if run.tier == "quick" else 3)]):
+        jid = len(jobs)
+        jobs.append((jid, s, dict(sw.OPTION_COMBOS[i % 8], repeat=True), iters))
+        meta[jid] = "history:functions"
     step = {"quick": {"repo": 12, "functions": 8, "constructs": 5, "eof": 3}, "thorough": {}}[run.tier]
     for name in ("functions", "repo", "constructs", "eof"):
         srcs = [s for s in fam[name] if sw.valid(s)][::step.get(name, 1)]
@@ -190,7 +206,21 @@ def check(run: common.Run):
             continue
         verdict, k = sequence_verdict(jobs[jid][1], r["outs"], iters)
         sweep[f"{verdict} after {k}"] += 1
+        if "outs2" in r:
+            v2, k2 = sequence_verdict(jobs[jid][1], r["outs2"], iters)
+            sweep["call-history sequences"] += 1
+            if (v2, k2) != (verdict, k) or r["outs2"][-1:] != r["outs"][-1:]:
+                failing_inputs.append({"kind": "sweep", "what": "the same text formatted again later in the same process converges "
+                                       f"differently ({verdict} after {k} the first time, {v2} after {k2} the second time)",
+                                       "case": {"source": jobs[jid][1], "options": jobs[jid][2], "first": r["outs"][-2:],
+                                                "second": r["outs2"][-2:]}})
+                continue
         if verdict == "fixed" and k <= BUDGET:
+            continue
+        f = dfind.match(findings, {"main.format_code", "fixes.add_missing_imports", "fixes.simplify_assign_immediate_return",
+                                   "fixes.undefine_unused_variables"}, jobs[jid][1])
+        if f is not None:
+            sweep[f"matched {f.id}"] += 1
             continue
         case = {"source": jobs[jid][1], "options": jobs[jid][2], "verdict": verdict, "k": k,
                 "sequence_lengths": [len(x) for x in r["outs"]], "sequence_tail": r["outs"][-3:]}
